@@ -324,11 +324,8 @@ pub fn step<C: Subject>(c: &mut C, m: &mut Model, op: &IOp, st: &mut IStats, cos
         }
         IOp::Reserve(n) => {
             guard(|| c.reserve(*n)).map_err(|p| format!("reserve({n}) panicked: {p}"))?;
-            if *n > 0 && !C::IS_STRIDE {
-                // a reservation may allocate: the "no heap at all" clause only covers
-                // containers that were never asked to reserve
-                m.ever_spilled = true;
-            }
+            // no exemption for reserve: the stride representation has no capacity to reserve
+            // (FlatStack::extend reserves on every call, and a dense stack must stay heap-free)
         }
         IOp::Serde => {
             let before = c.fingerprint();
